@@ -24,8 +24,9 @@ pub fn bound(after_new: i64, geom: Geom, f: usize, l: usize) -> i64 {
     let l = l as i64;
     // the variable part is doubled so that a benign change of a struct layout
     // (a wider Transition, a different Vec growth policy) stays below it; what
-    // matters is that no term depends on the number of keys
-    after_new + 2 * (cells * tv + (l + 2) * tv + if l + 2 > 64 { 2 * (l + 2) * U } else { 0 } + 2 * l) + 512
+    // matters is that no term depends on the number of keys; the constant 4096
+    // leaves room for a benign fixed-size scratch buffer or pool
+    after_new + 2 * (cells * tv + (l + 2) * tv + if l + 2 > 64 { 2 * (l + 2) * U } else { 0 } + 2 * l) + 4096
 }
 
 pub struct Trace {
@@ -211,7 +212,7 @@ pub fn replay(case: &Value) -> Result<String, String> {
 pub fn plan(tier: Tier) -> Plan {
     let mut p = Plan::new("C13", "exploration");
     let thorough = tier.thorough();
-    p.rule = "counting allocator with per-thread counters; the builder streams to a discarding sink. (1) exhaustive: under the tiny cache geometries 1x1, 1x2, 2x2, 3x3 (cache saturated after a handful of inserts, i.e. the regime 'evicting on every miss' is reachable) every subset of U_ab3 as set and map, and every prefix of the sorted universes {a,b}^<=6 and {a,b,c,d}^<=4: after (and at the peak during) EVERY insert and finish the builder's live heap <= B(rows,cols,F,L) = heap_after_new + 2*(cells*(max(4,2F)*24+32) + (L+2)*(max(4,2F)*24+32) + [2(L+2)*80 if L+2>64] + 2L) + 512, which has no term in the number of keys; after finish everything is freed. (2) finite ladder (not exhaustive): 16-byte keys over {a..d} with irregular gaps and non-shareable values, sets and maps, N in {1e4,1e5,2e5,4e5} (thorough: 1e6,4e6,1e7), geometries 1x1, 2x2, 100x2 and the default 10000x2, two ladders with varying key lengths (alternating 16/28-byte keys; keys that are proper prefixes of their successors), and a wide-node ladder (250..5000 (thorough 100000) distinct nodes of fan-out 40, 100, 256 and of widths cycling through 33..64, the node form with an index table): peak live <= B for every N and, for geometries with <= 200 cells, |peak(N_{i+1}) - peak(N_i)| <= 1 KiB. non-trivial = histories with >= 8 keys".into();
+    p.rule = "counting allocator with per-thread counters; the builder streams to a discarding sink. (1) exhaustive: under the tiny cache geometries 1x1, 1x2, 2x2, 3x3 (cache saturated after a handful of inserts, i.e. the regime 'evicting on every miss' is reachable) every subset of U_ab3 as set and map, and every prefix of the sorted universes {a,b}^<=6 and {a,b,c,d}^<=4: after (and at the peak during) EVERY insert and finish the builder's live heap <= B(rows,cols,F,L) = heap_after_new + 2*(cells*(max(4,2F)*24+32) + (L+2)*(max(4,2F)*24+32) + [2(L+2)*80 if L+2>64] + 2L) + 4096, which has no term in the number of keys; after finish everything is freed. (2) finite ladder (not exhaustive): 16-byte keys over {a..d} with irregular gaps and non-shareable values, sets and maps, N in {1e4,1e5,2e5,4e5} (thorough: 1e6,4e6,1e7), geometries 1x1, 2x2, 100x2 and the default 10000x2, two ladders with varying key lengths (alternating 16/28-byte keys; keys that are proper prefixes of their successors), and a wide-node ladder (250..5000 (thorough 100000) distinct nodes of fan-out 40, 100, 256 and of widths cycling through 33..64, the node form with an index table): peak live <= B for every N and, for geometries with <= 200 cells, |peak(N_{i+1}) - peak(N_i)| <= 1 KiB. non-trivial = histories with >= 8 keys".into();
     p.assumptions = vec![
         "'for all N' beyond the ladder is not decided by a bounded exploration; the ladder is a finite family and is reported as such".into(),
         "heap attributable to the builder = sum over its API calls of the change of the thread's live bytes (harness allocations are outside the measured calls)".into(),
